@@ -23,4 +23,5 @@ def run(chk):
     hobl.c01_child_summary_retraverses(chk, ex, "C16.child.replay_no_records")
     from . import executor_contracts, wrapper_contracts
     executor_contracts.replay_items(chk, "C16")
+    executor_contracts.handlers_dispatch(chk, "C16")
     wrapper_contracts.large_results(chk, "C16")
